@@ -19,11 +19,13 @@ const (
 	FlagSettimeLen         = "settime-len"          // settime(len(...))  (C04)
 	FlagStrptimeMemo       = "strptime-memo"        // same failing strptime value on two lines (C05/C07)
 	FlagConstFirst         = "const-first"          // CONST + /re/ { } : the reference's example, a syntax error
+	FlagStrCmpGeneric      = "str-cmp-generic"      // string comparison with a builtin result: numeric-looking strings compare as numbers
+	FlagDecoNested         = "deco-nested"          // a decorator used inside its own decorated block
 )
 
 // AllFlags lists the flagged streams in a fixed order.
 var AllFlags = []string{FlagOtherwiseElse, FlagOtherwiseAfterElse, FlagMixedAssign, FlagFloatCond,
-	FlagTwoPatterns, FlagInferOrder, FlagSettimeLen, FlagStrptimeMemo, FlagConstFirst}
+	FlagTwoPatterns, FlagInferOrder, FlagSettimeLen, FlagStrptimeMemo, FlagConstFirst, FlagStrCmpGeneric, FlagDecoNested}
 
 // Config selects what Generate produces.
 type Config struct {
@@ -43,8 +45,10 @@ type Config struct {
 func DefaultConfig() Config { return Config{MaxDepth: 3, MaxStmts: 3, MaxExpr: 3} }
 
 type capref struct {
-	pat *PatNode
-	grp int // 1-based
+	pat    *PatNode
+	grp    int  // 1-based
+	hidden bool // in scope for the checker (it shadows outer groups) but not safe to read: the pattern may not have matched
+	byName bool // reached through a decorator's scope copy: a named group is visible by its name only
 }
 
 type ctx struct {
@@ -55,6 +59,7 @@ type ctx struct {
 	inDeco   *DecoDef // generating a decorator body
 	nextDone *bool
 	touched  map[string]bool // "metric|keys" accessed earlier in this block (for del after)
+	active   []*DecoDef      // decorators whose decorated block we are inside
 }
 
 type gen struct {
@@ -63,9 +68,10 @@ type gen struct {
 	p    *Program
 	npat int
 	// decoScope[d] = captures visible at d's `next`
-	decoScope map[*DecoDef][]capref
-	decoTime  map[*DecoDef]bool
-	layout    string
+	decoScope     map[*DecoDef][]capref
+	decoTime      map[*DecoDef]bool
+	decoOtherwise map[*DecoDef]bool // the definition has an `otherwise` at its top level
+	layout        string
 }
 
 func (g *gen) feat(k string) { g.p.Features[k]++ }
@@ -82,7 +88,7 @@ func Generate(r *vlib.Rand, cfg Config) *Program {
 		cfg.MaxExpr = 3
 	}
 	g := &gen{r: r, cfg: cfg, p: &Program{Features: map[string]int{}, pools: newPools()},
-		decoScope: map[*DecoDef][]capref{}, decoTime: map[*DecoDef]bool{}, layout: "2006-01-02T15:04:05"}
+		decoScope: map[*DecoDef][]capref{}, decoTime: map[*DecoDef]bool{}, decoOtherwise: map[*DecoDef]bool{}, layout: "2006-01-02T15:04:05"}
 	if cfg.Flag != "" {
 		g.p.Flags = []string{cfg.Flag}
 		g.flagged()
@@ -190,7 +196,7 @@ func (g *gen) useAll() {
 		ws(d.Body)
 	}
 	for _, m := range g.p.Metrics {
-		if !used[m] {
+		if !used[m] || !m.pinned {
 			c := &ctx{depth: g.cfg.MaxDepth, touched: map[string]bool{}}
 			pn := g.newPat(false)
 			c2 := g.enter(c, pn)
@@ -213,8 +219,12 @@ func (g *gen) useAll() {
 	wd(g.p.Body)
 	for _, d := range g.p.Decos {
 		if !usedD[d] {
+			// in a block of its own, so that the definition's `otherwise` never
+			// follows a conditional with an else
 			c := &ctx{depth: g.cfg.MaxDepth - 1, touched: map[string]bool{}}
-			g.p.Body = append(g.p.Body, g.decoUse(c, d))
+			pn := g.newPat(false)
+			g.p.Body = append(g.p.Body, &Stmt{Op: "cond", E: &Expr{Op: "match", Ty: TBool, Pat: pn},
+				Then: []*Stmt{g.decoUse(g.enter(c, pn), d)}})
 		}
 	}
 }
@@ -317,9 +327,22 @@ func (g *gen) enter(c *ctx, pn *PatNode) *ctx {
 func capsOf(pn *PatNode) []capref {
 	var cs []capref
 	for i := range pn.P.Groups {
-		cs = append(cs, capref{pn, i + 1})
+		cs = append(cs, capref{pat: pn, grp: i + 1})
 	}
 	return cs
+}
+
+// shadow returns the context of a block inside the scope of pn's condition
+// where pn need not have matched (else block, `||`): its groups hide outer
+// ones of the same number/name but are not read.
+func (g *gen) shadow(c *ctx, pn *PatNode) *ctx {
+	n := g.sub(c)
+	n.scope = append([]capref{}, c.scope...)
+	for _, cr := range capsOf(pn) {
+		cr.hidden = true
+		n.scope = append(n.scope, cr)
+	}
+	return n
 }
 
 func (g *gen) sub(c *ctx) *ctx {
@@ -335,10 +358,10 @@ func (g *gen) caps(c *ctx, t Ty) []*Expr {
 	var out []*Expr
 	for i, cr := range c.scope {
 		gr := cr.pat.P.Groups[cr.grp-1]
-		if gr.Ty != t {
+		if gr.Ty != t || cr.hidden {
 			continue
 		}
-		byNum, byName := true, gr.Name != ""
+		byNum, byName := !(cr.byName && gr.Name != ""), gr.Name != ""
 		for _, in := range c.scope[i+1:] {
 			if in.pat == cr.pat {
 				continue
@@ -501,11 +524,14 @@ func (g *gen) exprX(c *ctx, t Ty, d int, strict bool) *Expr {
 			return &Expr{Op: "len", Ty: TInt, A: g.exprX(c, TStr, d-1, strict)}
 		case k < 15:
 			g.feat("builtin/strtol")
-			return &Expr{Op: "strtol", Ty: TInt, A: g.exprX(c, TStr, d-1, strict),
+			return &Expr{Op: "strtol", Ty: TInt, A: g.numStr(c, d-1, strict),
 				B: &Expr{Op: "int", Ty: TInt, I: vlib.Pick(r, []int64{8, 10, 16})}}
 		case k < 17:
 			g.feat("builtin/int")
 			from := vlib.Pick(r, []Ty{TStr, TStr, TInt})
+			if from == TStr {
+				return &Expr{Op: "conv", Fn: "int", From: from, Ty: TInt, A: g.numStr(c, d-1, strict)}
+			}
 			return &Expr{Op: "conv", Fn: "int", From: from, Ty: TInt, A: g.exprX(c, from, d-1, strict)}
 		case k < 18 && c.timeSet && !g.cfg.NoStrptime:
 			g.feat("builtin/timestamp")
@@ -520,6 +546,9 @@ func (g *gen) exprX(c *ctx, t Ty, d int, strict bool) *Expr {
 		case k < 8:
 			g.feat("builtin/float")
 			from := vlib.Pick(r, []Ty{TInt, TStr, TFloat})
+			if from == TStr {
+				return &Expr{Op: "conv", Fn: "float", From: from, Ty: TFloat, A: g.numStr(c, d-1, strict)}
+			}
 			return &Expr{Op: "conv", Fn: "float", From: from, Ty: TFloat, A: g.exprX(c, from, d-1, strict)}
 		default:
 			return g.leaf(c, TFloat, strict)
@@ -549,6 +578,22 @@ func (g *gen) exprX(c *ctx, t Ty, d int, strict bool) *Expr {
 		}
 	}
 	panic("gen: expr of type " + t.String())
+}
+
+// numStr: a String operand for int()/float()/strtol: mostly something that
+// can be a number (a String capture may or may not be), sometimes anything.
+func (g *gen) numStr(c *ctx, d int, strict bool) *Expr {
+	r := g.r
+	if cs := g.caps(c, TStr); len(cs) > 0 && r.Chance(60) {
+		return vlib.Pick(r, cs)
+	}
+	if r.Chance(15) {
+		return g.exprX(c, TStr, d, strict)
+	}
+	if r.Chance(30) {
+		return &Expr{Op: "conv", Fn: "string", From: TInt, Ty: TStr, A: g.exprX(c, TInt, d, strict)}
+	}
+	return &Expr{Op: "str", Ty: TStr, S: vlib.Pick(r, []string{"12", "7", "0", "10", "3"})}
 }
 
 func (g *gen) paren(e *Expr) *Expr {
@@ -599,7 +644,7 @@ func (g *gen) arith(c *ctx, t Ty, d int, strict bool) *Expr {
 		return g.fixDiv(c, e)
 	}
 	if t == TFloat {
-		// Int operands are promoted; at least one operand is Float
+		// Int operands are promoted; at least one operand is Float in the text
 		ta, tb := TFloat, TFloat
 		switch r.Intn(4) {
 		case 0:
@@ -611,38 +656,60 @@ func (g *gen) arith(c *ctx, t Ty, d int, strict bool) *Expr {
 			g.feat("promote/arith")
 		}
 		e.A = promote(g.exprX(c, ta, d-1, strict), TFloat)
-		e.B = promote(g.exprX(c, tb, d-1, strict), TFloat)
-		// the optimiser folds literal%literal with an Int left side wrongly (C02's finding)
-		if sym == "%" && e.A.Op == "conv" && e.A.A.Op == "int" && e.B.Op == "float" {
-			e.Sym = "*"
+		switch {
+		case sym == "**":
+			// small integral exponents: results stay exact, no NaN
+			if ta == TFloat && r.Bool() {
+				e.B = promote(&Expr{Op: "int", Ty: TInt, I: int64(r.Intn(4))}, TFloat)
+			} else {
+				e.B = &Expr{Op: "float", Ty: TFloat, F: vlib.Pick(r, []float64{2.0, 3.0})}
+			}
+		case sym == "/" || sym == "%":
+			// Float divisors are never zero (0/0 and x%0 are NaN, whose comparisons
+			// the reference does not define): a non-zero literal or a Float capture
+			e.B = &Expr{Op: "float", Ty: TFloat, F: vlib.Pick(r, []float64{0.5, 2.0, 0.25, 3.0})}
+			if cs := g.caps(c, TFloat); len(cs) > 0 && r.Bool() {
+				e.B = vlib.Pick(r, cs)
+			}
+			// the optimiser folds literal%literal with an Int left side wrongly (C02's finding)
+			if sym == "%" && e.A.Op == "conv" && e.A.Fn == "" && allLit(e.A.A) && e.B.Op == "float" {
+				e.Sym = "*"
+			}
+		default:
+			e.B = promote(g.exprX(c, tb, d-1, strict), TFloat)
 		}
 	} else {
 		e.A = g.exprX(c, t, d-1, strict)
-		e.B = g.exprX(c, t, d-1, strict)
-	}
-	if sym == "**" {
-		// keep exponents small and integral: results stay exact, no NaN
-		if t == TInt {
+		if sym == "**" {
 			e.B = &Expr{Op: "int", Ty: TInt, I: int64(r.Intn(4))}
 		} else {
-			e.B = promote(&Expr{Op: "int", Ty: TInt, I: int64(r.Intn(4))}, TFloat)
-			if r.Bool() {
-				e.B = &Expr{Op: "float", Ty: TFloat, F: vlib.Pick(r, []float64{2.0, 3.0})}
-			}
+			e.B = g.exprX(c, t, d-1, strict)
 		}
 	}
-	if t == TFloat && (sym == "/" || sym == "%") {
-		// Float divisors are never zero (0/0 and x%0 are NaN, whose comparisons
-		// the reference does not define): a non-zero literal or a Float capture
-		e.B = &Expr{Op: "float", Ty: TFloat, F: vlib.Pick(r, []float64{0.5, 2.0, 0.25, 3.0})}
-		if cs := g.caps(c, TFloat); len(cs) > 0 && r.Bool() {
-			e.B = vlib.Pick(r, cs)
-		}
-		if sym == "%" && e.A.Op == "conv" && e.A.A.Op == "int" && e.B.Op == "float" {
-			e.Sym = "*"
-		}
+	if allLit(e.A) && allLit(e.B) {
+		// literal-only arithmetic is folded by the optimiser (C02's domain): keep
+		// one operand that is not a literal
+		e.A = promote(g.nonLit(c, e.A.Ty), t)
 	}
 	return g.fixDiv(c, e)
+}
+
+// nonLit: an operand of type t (Int or Float) that is not a literal.
+func (g *gen) nonLit(c *ctx, t Ty) *Expr {
+	if t != TInt && t != TFloat {
+		t = TInt
+	}
+	if cs := g.caps(c, t); len(cs) > 0 {
+		return vlib.Pick(g.r, cs)
+	}
+	if ms := g.metricsOf(t, true); len(ms) > 0 {
+		return g.get(c, vlib.Pick(g.r, ms))
+	}
+	l := &Expr{Op: "len", Ty: TInt, A: &Expr{Op: "getfilename", Ty: TStr}}
+	if t == TFloat {
+		return &Expr{Op: "conv", Fn: "float", From: TInt, Ty: TFloat, A: l}
+	}
+	return l
 }
 
 // fixDiv avoids literal zero divisors (rejected at compile time: C02's domain).
@@ -658,9 +725,29 @@ func (g *gen) fixDiv(c *ctx, e *Expr) *Expr {
 			} else {
 				b.F = 2.0
 			}
+		} else if b.Op != "int" && b.Op != "float" && allLit(b) {
+			// an all-literal divisor is folded at compile time and may fold to zero
+			e.B = &Expr{Op: "int", Ty: TInt, I: vlib.Pick(g.r, []int64{2, 3, 7, -5})}
+			if e.Ty == TFloat {
+				e.B = &Expr{Op: "float", Ty: TFloat, F: 2.0}
+			}
 		}
 	}
 	return g.paren(e)
+}
+
+// allLit: the expression is built from numeric literals and arithmetic only
+// (the optimiser folds it to one literal).
+func allLit(e *Expr) bool {
+	switch e.Op {
+	case "int", "float":
+		return true
+	case "conv":
+		return e.Fn == "" && allLit(e.A)
+	case "arith":
+		return allLit(e.A) && allLit(e.B)
+	}
+	return false
 }
 
 // ---- conditions ----
@@ -681,9 +768,21 @@ func (g *gen) cmp(c *ctx, d int) *Expr {
 		e.CT = TInt
 	}
 	if e.CT == TStr {
-		e.A, e.B = g.expr(c, TStr, d-1), g.expr(c, TStr, d-1)
+		// Operands are String captures and literals only: for those the compiler
+		// selects the string comparison.  With a builtin result on either side it
+		// selects the generic comparison, which compares numeric-looking strings
+		// as numbers and fails on "12" == "abc" (flagged stream str-cmp-generic).
+		op := func() *Expr {
+			if cs := g.caps(c, TStr); len(cs) > 0 && r.Chance(70) {
+				return vlib.Pick(r, cs)
+			}
+			return lit(TStr, r)
+		}
+		e.A, e.B = op(), op()
 		if e.A.Op == "str" && e.B.Op == "str" {
-			e.A = g.leaf(c, TStr, false)
+			if cs := g.caps(c, TStr); len(cs) > 0 {
+				e.A = vlib.Pick(r, cs)
+			}
 		}
 		return e
 	}
@@ -760,12 +859,18 @@ func (g *gen) intCond(c *ctx, d int) *Expr {
 	}
 	sym := vlib.Pick(g.r, []string{"&", "-", "%", ">>", "^"})
 	a := g.expr(c, TInt, d-1)
-	b := g.expr(c, TInt, d-1)
-	if sym == "-" || sym == "%" {
-		return g.fixDiv(c, &Expr{Op: "arith", Ty: TInt, Sym: sym, A: a, B: b})
-	}
+	var b *Expr
 	if sym == ">>" {
 		b = &Expr{Op: "int", Ty: TInt, I: int64(g.r.Intn(3))}
+	} else {
+		b = g.expr(c, TInt, d-1)
+	}
+	if allLit(a) && allLit(b) {
+		// a literal condition is folded and then refused ("can't interpret Int as a boolean")
+		a = &Expr{Op: "len", Ty: TInt, A: &Expr{Op: "getfilename", Ty: TStr}}
+	}
+	if sym == "-" || sym == "%" {
+		return g.fixDiv(c, &Expr{Op: "arith", Ty: TInt, Sym: sym, A: a, B: b})
 	}
 	return &Expr{Op: "bit", Ty: TInt, Sym: sym, A: a, B: b}
 }
@@ -867,12 +972,18 @@ func (g *gen) timeStmt(c *ctx) *Stmt {
 	}
 	g.feat("builtin/settime")
 	e := g.expr(c, TInt, 2)
-	if e.Op == "len" {
+	if rawLen(e) {
 		// settime(len(x)) is C04's finding (Go int on the stack); keep it out of the main stream
 		e = &Expr{Op: "arith", Ty: TInt, Sym: "+", A: e, B: &Expr{Op: "int", Ty: TInt, I: 1}}
 	}
 	c.timeSet = true
 	return &Stmt{Op: "settime", E: e}
+}
+
+// rawLen: the expression is len(...) possibly under no-op conversions: the VM
+// then holds a Go int, not an int64.
+func rawLen(e *Expr) bool {
+	return e.Op == "len" || (e.Op == "conv" && e.From == e.Ty && rawLen(e.A))
 }
 
 const tsRe = `\d\d\d\d-\d\d-\d\dT\d\d:\d\d:\d\d`
@@ -894,24 +1005,30 @@ func (g *gen) cond(c *ctx, allowElse bool) *Stmt {
 	r := g.r
 	s := &Stmt{Op: "cond"}
 	var inner *ctx
+	var condPat *PatNode
 	switch k := r.Intn(10); {
 	case k < 5:
-		pn := g.newPat(false)
+		var pn *PatNode
 		if !g.cfg.NoStrptime && r.Chance(12) {
 			pn = g.tsPat()
+		} else {
+			pn = g.newPat(false)
 		}
+		condPat = pn
 		s.E = &Expr{Op: "match", Ty: TBool, Pat: pn}
 		inner = g.enter(c, pn)
 		g.feat("cond/pattern")
 	case k < 7:
 		pn := g.newPat(false)
+		condPat = pn
 		op := "and"
 		pats := 0
 		var rhs *Expr
 		if r.Chance(20) {
 			op = "or"
-			rhs = g.boolExpr(g.sub(c), 1, &pats)
-			inner = g.sub(c) // captures are not safe under ||
+			inner = g.shadow(c, pn) // captures are not safe under ||
+			rhs = g.boolExpr(inner, 1, &pats)
+			inner = g.shadow(c, pn)
 		} else {
 			// the right operand may use the captures the pattern just produced
 			inner = g.enter(c, pn)
@@ -936,6 +1053,9 @@ func (g *gen) cond(c *ctx, allowElse bool) *Stmt {
 	if allowElse && r.Chance(25) {
 		s.HasElse = true
 		ec := g.sub(c)
+		if condPat != nil {
+			ec = g.shadow(c, condPat)
+		}
 		ec.elseTop = true
 		s.Else = g.block(ec, r.Intn(3))
 		g.feat("cond/else")
@@ -947,9 +1067,11 @@ func (g *gen) decoDef(i int) {
 	r := g.r
 	d := &DecoDef{Name: fmt.Sprintf("deco%d", i)}
 	c := &ctx{depth: 1, inDeco: d, touched: map[string]bool{}}
-	pn := g.newPat(false)
+	var pn *PatNode
 	if !g.cfg.NoStrptime && r.Chance(40) {
 		pn = g.tsPat()
+	} else {
+		pn = g.newPat(false)
 	}
 	inner := g.enter(c, pn)
 	var then []*Stmt
@@ -970,15 +1092,30 @@ func (g *gen) decoDef(i int) {
 	d.Body = []*Stmt{{Op: "cond", E: &Expr{Op: "match", Ty: TBool, Pat: pn}, Then: then}}
 	if r.Chance(20) {
 		d.Body = append(d.Body, &Stmt{Op: "otherwise", Then: []*Stmt{g.action(g.sub(c))}})
+		g.decoOtherwise[d] = true
 		g.feat("stmt/otherwise")
 	}
 	g.p.Decos = append(g.p.Decos, d)
 	g.feat("deco/def")
 }
 
+func (c *ctx) isActive(d *DecoDef) bool {
+	for _, a := range c.active {
+		if a == d {
+			return true
+		}
+	}
+	return false
+}
+
 func (g *gen) decoUse(c *ctx, d *DecoDef) *Stmt {
 	inner := g.sub(c)
-	inner.scope = append(append([]capref{}, c.scope...), g.decoScope[d]...)
+	inner.active = append(append([]*DecoDef{}, c.active...), d)
+	inner.scope = append([]capref{}, c.scope...)
+	for _, cr := range g.decoScope[d] {
+		cr.byName = true
+		inner.scope = append(inner.scope, cr)
+	}
 	inner.timeSet = c.timeSet || g.decoTime[d]
 	// `next` is not the first statement of its block in every definition: keep
 	// `otherwise` out of the top level of a decorated block (see README).
@@ -1012,7 +1149,17 @@ func (g *gen) block(c *ctx, n int) []*Stmt {
 			s = &Stmt{Op: "otherwise", Then: g.block(g.sub(c), 1+r.Intn(2))}
 			g.feat("stmt/otherwise")
 		case k < 10 && canNest && len(g.p.Decos) > 0 && c.inDeco == nil:
-			s = g.decoUse(c, vlib.Pick(r, g.p.Decos))
+			d := vlib.Pick(r, g.p.Decos)
+			if c.isActive(d) {
+				// a decorator used inside its own decorated block: capture references
+				// after the inner use read the inner instance (flagged stream deco-nested)
+				break
+			}
+			if g.decoOtherwise[d] && (c.elseTop || seenElse) {
+				// the definition's own `otherwise` would land after an else
+				break
+			}
+			s = g.decoUse(c, d)
 			// a decorator body may contain a conditional with an else / otherwise
 			seenElse = true
 		case k < 11:
